@@ -41,16 +41,17 @@ impl<'n> TryFromNode<'n> for Field {
 
         let is_attribute = node.tag_name().name() == "attribute";
         let parent_is_optional = node.parent().and_then(|n| n.attribute("minOccurs")) == Some("0");
+        let is_choice = node.parent().is_some_and(|n| n.tag_name().name() == "choice");
         let is_optional = if is_attribute {
             node.attribute("use") != Some("required")
         } else {
-            node.attribute("minOccurs") == Some("0") || parent_is_optional
+            // only one branch of a choice is present, so every branch is optional
+            node.attribute("minOccurs") == Some("0") || parent_is_optional || is_choice
         };
         // maxOccurs="unbounded" or any count above one means the member may repeat
         let repeats = |n: &Node| n.attribute("maxOccurs").is_some_and(|m| m != "1" && m != "0");
         let parent_is_vec = node.parent().is_some_and(|n| repeats(&n));
         let is_vec = repeats(&node) || parent_is_vec;
-        let is_choice = node.parent().is_some_and(|n| n.tag_name().name() == "choice");
 
         // check if this is an any type
         if node.tag_name().name() == "any" {
